@@ -351,7 +351,9 @@ def playback(ws, unit, fq_harness, check_ids, timeout_s, log_dir):
     if check_ids:
         # restrict CBMC to the refuted obligations (one SAT call with a trace instead of
         # one per property of the harness); must be the last flag
-        cmd += ["--cbmc-args", "--slice-formula"]
+        # no --slice-formula here: the slicer drops nondeterministic inputs the refuted assertion
+        # does not depend on, and the generated test then lacks values for them
+        cmd += ["--cbmc-args"]
         for cid in check_ids:
             cmd += ["--property", cid]
     env = dict(os.environ)
